@@ -194,6 +194,18 @@ pub fn run(name: &str, a: &Args) -> Option<String> {
             }
             assert!(k >= items.len());
             if ended {
+                // the other ways of consuming the iterator (nth, skip, step_by, last, count) see the same sequence
+                for k in [0, 1, items.len().saturating_sub(1), items.len(), items.len() + 1] {
+                    let got = whole.clone().nth(k);
+                    assert!(got.is_some() == (k < items.len()) && got.map_or(true, |x| same(&x, &items[k])), "nth() and next() disagree");
+                    let got = whole.clone().skip(k).next();
+                    assert!(got.is_some() == (k < items.len()) && got.map_or(true, |x| same(&x, &items[k])), "skip() and next() disagree");
+                }
+                let every_other: Vec<Epoch> = whole.clone().step_by(2).collect();
+                assert!(every_other.len() == (items.len() + 1) / 2 && every_other.iter().enumerate().all(|(i, x)| same(x, &items[2 * i])), "step_by(2) and next() disagree");
+                assert!(whole.clone().count() == items.len(), "count() and next() disagree");
+                let last = whole.clone().last();
+                assert!(last.is_some() == !items.is_empty() && last.map_or(true, |x| same(&x, &items[items.len() - 1])), "last() and next() disagree");
                 let v: Vec<Epoch> = whole.collect();
                 assert!(v.len() == items.len() && v.iter().zip(items.iter()).all(|(x, y)| same(x, y)), "collect() and next() disagree");
             }
